@@ -56,7 +56,10 @@ def iterator_rules(facts, fams=("kll/", "req/", "quantiles/", "density/")):
         if "ctor" not in d or "inc" not in d:
             continue
         base = short(r)
-        inc, ctor = d["inc"], d["ctor"]
+        # private void helpers of the iterator class are seen through (the skip loop may live in one)
+        from astu import inlined_body
+        by_pat = {f["pat"]: f for f in fns.values()}
+        inc, ctor = dict(d["inc"], body=inlined_body(d["inc"], by_pat)), dict(d["ctor"], body=inlined_body(d["ctor"], by_pat))
         # coupling pairs established by operator++: two different fields updated side by side in one block
         pairs = set()
         for b in all_blocks(inc["body"], []):
